@@ -164,6 +164,24 @@ def handle (op : String) (args : List String) : Option String :=
     | some .panic => some "panic"
   | _, _ => none
 
+/-- spellings added for the robustness streams; every one of them ends in `handle`, i.e. in the same model definitions:
+* `re INNER TARGET op args…` — the harness's closure additionally calls the closure operation INNER on another array while `op`
+  runs; the model's transcript of `op` is the one of the plain closure (the model's closures are functions of call number,
+  position and element only);
+* `collect_h LIST MODE` — `collect` from an iterator whose size hint is not exact: the model's `collect LIST`;
+* `clone_from A B` — `b.clone_from(&a)`: the array `a`;
+* `hclo op args…` — huge arrays: the list-backed transcript model is quadratic (49 s for 90 000 elements), the driver answers
+  `ok native` and the harness judges by its native reference transcript, which it validates against `handle` on every other
+  closure case of the run (`audit` line). -/
+def handleX (op : String) (args : List String) : Option String :=
+  match op, args with
+  | "re", _inner :: _target :: op' :: rest => handle op' rest
+  | "collect_h", [l, _mode] => handle "collect" [l]
+  | "clone_from", [a, _b] => do let a ← parseArr? a; some ("ok " ++ showArr a)
+  | "hclo", _ => some "ok native"
+  | "audit", [] => some "ok audit"
+  | _, _ => handle op args
+
 end Driver.C05
 
-def main : IO Unit := Driver.runDriver Driver.C05.handle
+def main : IO Unit := Driver.runDriver Driver.C05.handleX
